@@ -66,6 +66,11 @@ func init() {
 					r.Unresolved("no else-if on an error value found")
 				}
 			}},
+			{ID: "C17.R15", Floor: 100, Doc: "every mutex a function locks is unlocked again on every path to every exit (every function and function literal of the module)", Run: func(p *Program, r *Report) {
+				if lockBalance(p, r, func(fi *FuncInfo) bool { return true }) == 0 {
+					r.Unresolved("no function locks a mutex")
+				}
+			}},
 			{ID: "C17.R14", Floor: 1, Doc: "a pool's connection list is shortened by one only after the last element has been moved into the slot of the connection being removed", Run: c17r14},
 		},
 	})
